@@ -41,6 +41,21 @@ CORPORA = {
                                   Keys={"owned", "lent"}),
                       parts=16, max_runs=500000),
     ),
+    # the constructors that rely on ownership instead of a duplicate check (new, From, collect(), new_unchecked):
+    # the sorted kinds must sort, and every kind must lock the same leaves, whichever constructor built the collection
+    "ctors": dict(
+        module="MC.tla",
+        quick=dict(consts=dict(Kinds={"boxed", "ref", "retry"}, ApisA={"lock", "read", "try_lock", "scoped_lock"},
+                               CallsB={("boxed", (2, 1), "lock"), ("ref", (1, 2), "read"), ("retry", (1, 4), "lock"),
+                                       ("boxed", (4, 1), "lock")},
+                               UnivA={1, 2, 4}, MinLenA=2, MaxLenA=3, Policies={"RP"}, NT=2, Keys={"owned"},
+                               ConcCtors={"new", "from", "from_iter", "unchecked"}),
+                   parts=14, max_runs=100000),
+        thorough=dict(consts=dict(Kinds={"boxed", "ref", "retry"}, ApisA=ALL_APIS, CallsB=HOLDERS_2,
+                                  UnivA={1, 2, 3, 4}, MinLenA=1, MaxLenA=3, Policies={"RP", "WP"}, NT=2, Keys={"owned"},
+                                  ConcCtors={"new", "from", "from_iter", "unchecked"}),
+                      parts=16, max_runs=500000),
+    ),
     # two threads, each performing its call twice: re-acquisition after drop / failed try / scoped return
     "conc2x2": dict(
         module="MC.tla",
@@ -121,7 +136,7 @@ CORPORA.update({
     "seqkey2": dict(
         module="MC.tla",
         quick=dict(consts=dict(Family="seq", SeqColls={1, 2, 3, 4, 8}, SeqApis={"lock", "try_lock", "scoped_lock", "scoped_try_lock"},
-                               SeqRels={"drop", "unlock"}, SeqKeys={"owned", "lent"}, SeqBodies={"none", "panic", "probe"},
+                               SeqRels={"drop", "unlock"}, SeqKeys={"owned", "lent"}, SeqBodies={"none", "panic"},
                                SeqKeyOps={"probe"}, SeqMaxLen=2, SeqHolders={("none", 0), ("lock", 13)}, Policies={"RP"}),
                    parts=14, max_runs=60000),
         thorough=dict(consts=dict(Family="seq", SeqColls={1, 2, 3, 4, 6, 8}, SeqApis=ALL_APIS,
@@ -156,6 +171,33 @@ CORPORA.update({
                                   SeqRels={"drop", "unlock"}, SeqKeys={"owned", "lent"}, SeqBodies={"acc"},
                                   SeqKeyOps=set(), SeqMaxLen=2,
                                   SeqHolders={("none", 0), ("lock", 3), ("read", 3)}, Policies={"RP", "WP"}),
+                      parts=16, max_runs=500000),
+    ),
+    # every API flavour and both release styles of a top-level Poisonable (over an RwLock, a boxed and a retrying
+    # collection, another Poisonable), without panics, against holders of its leaves
+    "poisapi": dict(
+        module="MC.tla",
+        quick=dict(consts=dict(Family="seq", SeqColls={7, 8, 10, 11}, SeqApis=ALL_APIS,
+                               SeqRels={"drop", "unlock"}, SeqKeys={"owned", "lent"}, SeqBodies={"acc"}, SeqKeyOps=set(),
+                               SeqMaxLen=1, SeqHolders={("none", 0), ("lock", 1), ("read", 1), ("lock", 3), ("read", 3)},
+                               Policies={"RP"}),
+                   parts=8, max_runs=60000),
+        thorough=dict(consts=dict(Family="seq", SeqColls={7, 8, 10, 11, 16}, SeqApis=ALL_APIS,
+                                  SeqRels={"drop", "unlock"}, SeqKeys={"owned", "lent"}, SeqBodies={"acc"}, SeqKeyOps=set(),
+                                  SeqMaxLen=2, SeqHolders={("none", 0), ("lock", 1), ("read", 1), ("lock", 3), ("read", 3)},
+                                  Policies={"RP", "WP"}),
+                      parts=16, max_runs=500000),
+    ),
+    # ThreadKey::get() from inside the critical section of every API flavour (guard alive / closure running)
+    "keyprobe": dict(
+        module="MC.tla",
+        quick=dict(consts=dict(Family="seq", SeqColls={1, 2, 3, 4, 5, 6, 8}, SeqApis=ALL_APIS,
+                               SeqRels={"drop", "unlock"}, SeqKeys={"owned", "lent"}, SeqBodies={"probe"}, SeqKeyOps={"probe"},
+                               SeqMaxLen=2, SeqHolders={("none", 0)}, Policies={"RP"}),
+                   parts=8, max_runs=60000),
+        thorough=dict(consts=dict(Family="seq", SeqColls={1, 2, 3, 4, 5, 6, 7, 8, 9, 12, 13}, SeqApis=ALL_APIS,
+                                  SeqRels={"drop", "unlock"}, SeqKeys={"owned", "lent"}, SeqBodies={"probe"}, SeqKeyOps={"probe"},
+                                  SeqMaxLen=2, SeqHolders={("none", 0), ("lock", 13)}, Policies={"RP"}),
                       parts=16, max_runs=500000),
     ),
     # panics in user code at every critical section, poisonable wrappers everywhere
@@ -290,15 +332,15 @@ CORPORA.update({
 })
 
 PROPS = {
-    "C01": dict(corpora=["conc2", "size3", "conc3", "nest", "conc2x2", "conc4"], design="DESIGN.md §5 C01"),
-    "C02": dict(corpora=["conc2", "size3", "nest", "concpanic"], design="DESIGN.md §5 C02"),
-    "C03": dict(corpora=["conc2", "size3", "seqapi", "conc2x2", "panic", "concpanic"], design="DESIGN.md §5 C03"),
-    "C04": dict(corpora=["conc2", "size3", "nest"], design="DESIGN.md §5 C04"),
-    "C05": dict(corpora=["conc2", "size3", "seqapi", "ops", "conc2x2", "panic", "concpanic"], design="DESIGN.md §5 C05"),
-    "C08": dict(corpora=["conc2", "size3"], design="DESIGN.md §5 C08"),
+    "C01": dict(corpora=["conc2", "size3", "conc3", "nest", "conc2x2", "conc4", "ctors"], design="DESIGN.md §5 C01"),
+    "C02": dict(corpora=["conc2", "size3", "nest", "concpanic", "poisapi"], design="DESIGN.md §5 C02"),
+    "C03": dict(corpora=["conc2", "size3", "seqapi", "conc2x2", "panic", "concpanic", "poisapi"], design="DESIGN.md §5 C03"),
+    "C04": dict(corpora=["conc2", "size3", "nest", "ctors", "poisapi"], design="DESIGN.md §5 C04"),
+    "C05": dict(corpora=["conc2", "size3", "seqapi", "ops", "conc2x2", "panic", "concpanic", "poisapi"], design="DESIGN.md §5 C05"),
+    "C08": dict(corpora=["conc2", "size3", "ctors"], design="DESIGN.md §5 C08"),
     "C09": dict(corpora=["conc2", "size3", "conc3", "nest", "conc4"], design="DESIGN.md §5 C09"),
-    "C13": dict(corpora=["conc2", "seqapi"], design="DESIGN.md §5 C13"),
-    "C06": dict(corpora=["seqkey", "seqkey2"], design="DESIGN.md §5 C06"),
+    "C13": dict(corpora=["conc2", "seqapi", "poisapi"], design="DESIGN.md §5 C13"),
+    "C06": dict(corpora=["seqkey", "seqkey2", "keyprobe"], design="DESIGN.md §5 C06"),
     "C10": dict(corpora=["panic", "poisonseq"], design="DESIGN.md §5 C10"),
     "C11": dict(corpora=["concpanic", "panic", "seqkey2"], design="DESIGN.md §5 C11"),
     "C17": dict(corpora=["ops", "opsnokey"], design="DESIGN.md §5 C17"),
